@@ -99,6 +99,7 @@ class Scheduler:
         self.counter = {"m": 0, "x": 0}
         self.strctr = 0
         self.always = {}
+        self.last_unlinked = []
 
     # ---------------------------------------------------------------- helpers
     def pinned(self, obj, prop):
@@ -263,11 +264,13 @@ class Scheduler:
         base = "SimModel" if vc == "SimModel" else "SimWidget"
         others = [x for x in self.live(base) if x != victim]
         plan = []
+        self.last_unlinked = []
         for o in self.objects_with_sources():
             for p, t in self.ptr_props(o):
                 if self.w.props[o][p] == victim:
                     if o == victim:
                         continue
+                    self.last_unlinked.append((o, p))
                     if others and (self.pinned(o, p) or self.r.chance(0.6)):
                         plan.append((o, p, t, self.r.choice(others)))
                     elif not self.pinned(o, p):
@@ -280,10 +283,45 @@ class Scheduler:
             ops += op
         return lines, ops
 
-    def ev_destroy(self):
+    def ev_aba(self):
+        """scripted schedule for the case the generated code's own comment worries about: while the conditions are
+        switched one way (so observe statements on the other paths do not run) an observed external object dies, a new
+        one is constructed at its address and linked back where the old one was; then the conditions flip and the
+        newcomer changes.  Returns several groups, each followed by an observation."""
+        cands = [x for x in self.ext if any(self.w.props[o][p] == x for o in self.objects_with_sources() for p, t in self.ptr_props(o) if o != x)]
+        if not cands:
+            return None
+        victim = self.r.choice(cands)
+        pol = self.r.chance(0.5)
+        groups = []
+
+        def flags(v, kind):
+            lines, ops = [], []
+            for o in self.objects_with_sources():
+                if "flag" in self.w.props[o] and o in self.w.cls and self.w.cls[o] in ("SimWidget", "SimPanel") and self.w.props[o]["flag"] != v:
+                    l, op = self.set_ops(o, "flag", "bool", v)
+                    lines += l
+                    ops += op
+            if lines:
+                groups.append({"kind": kind, "sub": ["SET"], "lines": lines, "ops": ops})
+        flags(pol, "BURST")
+        e = self.ev_destroy(victim=victim, force_reuse=True)
+        if e is None:
+            return groups or None
+        groups.append({"kind": e[0], "lines": e[1], "ops": e[2]})
+        flags(not pol, "BURST")
+        newcomer = self.ext[-1] if self.ext else None
+        if newcomer and e[0] == "DESTROY+CREATE_REUSE":
+            cls = self.w.cls[newcomer]
+            for p, ty in [(p, t) for p, t in sources_of(cls) if t not in ("pw", "pm")][:3]:
+                l, op = self.set_ops(newcomer, p, ty, self.value(ty, self.w.props[newcomer][p]))
+                groups.append({"kind": "SET", "lines": l, "ops": op})
+        return groups
+
+    def ev_destroy(self, victim=None, force_reuse=False):
         if not self.ext:
             return None
-        victim = self.r.choice(self.ext)
+        victim = victim or self.r.choice(self.ext)
         cls = self.w.cls[victim]
         # bound pointers (midPeer/outPeer) derive from sources, and sources never keep a dangling pointer;
         # but a bound pointer could legitimately still name the victim through a *named* constant only - externals are never named
@@ -300,7 +338,7 @@ class Scheduler:
         self.w.remove_object(victim)
         self.ext.remove(victim)
         kind = "DESTROY"
-        if self.r.chance(0.65):
+        if force_reuse or self.r.chance(0.65):
             # a new object at the same address (the ABA case), then linked in
             n, l, o = self.new_external(cls, reuse=victim)
             lines += l
@@ -309,20 +347,27 @@ class Scheduler:
             lines += l
             ops += o
             kind = "DESTROY+CREATE_REUSE"
-            l, o = self.link_in(n)
+            # mostly put the newcomer back where the dead object was referenced: the pointer value returns to the
+            # same address while an observer that did not run in between still records it (the ABA case)
+            l, o = self.link_in(n, prefer=self.last_unlinked if (force_reuse or self.r.chance(0.8)) else None)
             lines += l
             ops += o
         else:
             self.graves.append((victim, cls))
         return kind, lines, ops
 
-    def link_in(self, n):
+    def link_in(self, n, prefer=None):
         lines, ops = [], []
         cls = self.w.cls[n]
         t = "pm" if cls == "SimModel" else "pw"
         cands = [(o, p) for o in self.objects_with_sources() for p, pt in self.ptr_props(o) if pt == t and o != n]
         self.r.shuffle(cands)
-        for o, p in cands[:self.r.randint(1, 2)]:
+        chosen = cands[:self.r.randint(1, 2)]
+        if prefer:
+            back = [(o, p) for o, p in prefer if o in self.w.cls and (o, p) in cands]
+            if back:
+                chosen = back
+        for o, p in chosen:
             l, op = self.set_ops(o, p, t, n)
             lines += l
             ops += op
@@ -370,7 +415,7 @@ class Scheduler:
         for n, c in sorted(self.w.cls.items()):
             if c not in ("SimWidget", "SimPanel"):
                 continue
-            for key, ats in (("poked(int,bool)", ["int", "bool"]), ("fired()", []), ("renamed(QString,int)", ["QString", "int"]),
+            for key, ats in (("poked(int,bool)", ["int", "bool"]), ("fired()", []), ("tuned(int,int,bool)", ["int", "int", "bool"]), ("renamed(QString,int)", ["QString", "int"]),
                              ("picked(int)", ["int"]), ("picked(QString)", ["QString"]), ("moved(int)", ["int"]), ("moved(QString)", ["QString"]),
                              ("dialed(int,int)", ["int", "int"]), ("dialed(int,QString)", ["int", "QString"])):
                 if (n, key) not in self.w.handlers:
@@ -392,8 +437,8 @@ class Scheduler:
 
     def history(self, n_events):
         """-> list of groups {"kind", "lines", "ops"}; one observation follows each group"""
-        weights = {"mixed": [(20, "set"), (6, "same"), (8, "notify"), (14, "repoint"), (6, "null"), (7, "destroy"), (5, "new"), (14, "emit"), (5, "other"), (3, "always"), (8, "burst")],
-                   "bindings": [(24, "set"), (6, "same"), (8, "notify"), (18, "repoint"), (8, "null"), (9, "destroy"), (6, "new"), (6, "emit"), (2, "other"), (3, "always"), (10, "burst")],
+        weights = {"mixed": [(20, "set"), (6, "same"), (8, "notify"), (14, "repoint"), (6, "null"), (7, "destroy"), (5, "new"), (14, "emit"), (5, "other"), (3, "always"), (8, "burst"), (2, "aba")],
+                   "bindings": [(24, "set"), (6, "same"), (8, "notify"), (18, "repoint"), (8, "null"), (9, "destroy"), (6, "new"), (6, "emit"), (2, "other"), (3, "always"), (10, "burst"), (4, "aba")],
                    "handlers": [(12, "set"), (3, "same"), (4, "notify"), (8, "repoint"), (3, "null"), (3, "destroy"), (2, "new"), (40, "emit"), (14, "other"), (3, "always"), (6, "burst")]}[self.profile]
         groups = []
         fns = {"set": self.ev_set, "same": self.ev_set_same, "notify": self.ev_notify, "repoint": self.ev_repoint, "null": self.ev_null,
@@ -402,6 +447,12 @@ class Scheduler:
         while len(groups) < n_events and guard < n_events * 10:
             guard += 1
             k = self.r.weighted(weights)
+            if k == "aba":
+                gs = self.ev_aba()
+                if gs:
+                    groups += gs
+                    groups[-1]["aba"] = True
+                continue
             if k == "burst":
                 lines, ops, kinds = [], [], []
                 for _ in range(self.r.randint(2, 5)):
